@@ -59,6 +59,27 @@ def lattice_points(w, scale):
             yield r, dl
 
 
+def typed_points(w, scale, ref):
+    """(raw, offset label, user value): the lattice as floats (ints where the effective scale is 0), plus the values a user
+    may supply as Python / JSON INTEGERS: for a negative scale every integer between the grid points is a legitimate input
+    (off-grid by 1/4, 1/2 - 1, 1/2 (tie) of a unit, both directions); for a positive scale the integral lattice values
+    given as int instead of float"""
+    for r, dl in lattice_points(w, scale):
+        v = user_value(r, dl, ref, scale)
+        yield r, dl, v
+        if scale > 0 and isinstance(v, float) and v.is_integer() and abs(v) < 2 ** 52:
+            yield r, 'int:%s' % dl, int(v)
+    if scale < 0:
+        unit = 10 ** (-scale)
+        offs = sorted({0, unit // 4, unit // 2 - 1, unit // 2, -(unit // 4), -(unit // 2 - 1), 1, -1})
+        raws = sorted({-1, 0, 1, (1 << w) - 3, (1 << w) - 2, (1 << w) - 1, 1 << w, (1 << w) + 1})
+        for r in raws:
+            for o in offs:
+                if abs(o) * 2 > unit:
+                    continue
+                yield r, 'int%+d/%d' % (o, unit), (r + ref) * unit + o
+
+
 def user_value(r, dl, ref, scale):
     x = (Fraction(r) + dl + ref) / (Fraction(10) ** scale)
     if scale == 0:
@@ -119,8 +140,7 @@ def run_lattice(defs):
         for cname, descs, w, scale, ref in contexts_for(B, d):
             inr = max(0, min((1 << w) - 2, 1))
             v_other = user_value(inr, Fraction(0), ref, scale)
-            for r, dl in lattice_points(w, scale):
-                v = user_value(r, dl, ref, scale)
+            for r, dl, v in typed_points(w, scale, ref):
                 cands = admissible_roundings(v, ref, scale)
                 must_refuse = all(c < 0 or c > (1 << w) - 1 for c in cands)
                 for comp in (False, True):
